@@ -68,6 +68,15 @@ def harness(*args, timeout=1800, check=True, env=None):
                 break
             except ValueError:
                 continue
+    if p.returncode == -6 and "LIBRARY-ABORT" in (p.stderr or ""):
+        # the code under test called abort() during an explored schedule: data, not a tool failure
+        sched, run = "", ""
+        for line in p.stderr.splitlines():
+            if line.startswith("LIBRARY-ABORT schedule="):
+                sched = line.split("=", 1)[1].strip()
+            elif line.startswith("LIBRARY-ABORT run="):
+                run = line.split("=", 1)[1].strip()
+        raise LibraryAbort([str(a) for a in args], sched, run)
     if check and p.returncode != 0:
         raise ToolError("harness %s exited %d: %s" % (" ".join(map(str, args)), p.returncode,
                                                      (p.stderr or out)[-2000:]))
@@ -77,6 +86,14 @@ def harness(*args, timeout=1800, check=True, env=None):
 def read_ndjson(path):
     with open(path) as f:
         return [json.loads(l) for l in f if l.strip()]
+
+
+class LibraryAbort(Exception):
+    """The library aborted the process (e.g. half_lock.rs's reader-count guard) in an explored run."""
+
+    def __init__(self, args, schedule, run):
+        Exception.__init__(self, "library aborted the process")
+        self.harness_args, self.schedule, self.run = args, schedule, run
 
 
 class TvResult:
@@ -190,7 +207,7 @@ class Check:
     # ---- model checking -------------------------------------------------
     def model_check(self, module, constants, invariants=(), properties=(), name=None,
                     spec="Spec", workers=8, timeout=900, what="", constraints=(),
-                    deadlock=True, heap="8g", coverage=False, view=None, expect=()):
+                    deadlock=True, heap="8g", coverage=False, view=None, expect=(), simulate=None):
         """expect: names of spec actions that must have produced at least one distinct state
         (vacuity guard, from TLC's -coverage statistics); a zero is a tool error."""
         coverage = coverage or bool(expect)
@@ -198,7 +215,11 @@ class Check:
         cfg = cfg_text(constants, invariants=invariants, properties=properties, spec=spec,
                        constraints=constraints, view=view)
         r = run_tlc(module, cfg, name, workers=workers, timeout=timeout, deadlock=deadlock,
-                    heap=heap, coverage=coverage)
+                    heap=heap, coverage=coverage, simulate=simulate,
+                    extra=["-depth", "600"] if simulate else ())
+        if simulate:
+            self.exhaustive = False
+            what = what + " [random simulation, %s s]" % timeout
         entry = {"module": module, "what": what, "constants": {k: str(v) for k, v in constants.items()},
                  "invariants": list(invariants), "properties": list(properties)}
         entry.update(r.summary())
